@@ -236,7 +236,6 @@ func VerifC11Crash(op int, pre int, mcap int, nset int) {
 		}
 		isAfter := len(got) == len(keep)+1 && vrfSame(got[:len(keep)], keep) &&
 			got[len(keep)].subj == "sn" && got[len(keep)].b0 == nb && !got[len(keep)].seen
-		vrf.Known("C11-cap-eviction-not-atomic-with-delivery", mcap > 0 && len(before) >= mcap && vrfSame(got, keep))
 		vrf.Assert("after-crash-all-or-nothing", isBefore || isAfter)
 	} else {
 		vrf.Assert("after-crash-all-or-nothing", vrfSame(got, before) || vrfSame(got, after))
